@@ -187,6 +187,18 @@ func c11(c *Ctx) (*report.Result, error) {
 				retained = "converted and possibly retained at " + instrPos(c.Prog, x.(ssa.Instruction))
 			}
 		}
+		{
+			isUpd := func(x ssa.Instruction) bool {
+				call, ok := x.(ssa.CallInstruction)
+				if !ok {
+					return false
+				}
+				sc := flow.StaticCallee(call.Common())
+				return sc != nil && sc.Name() == "UpdateState"
+			}
+			pr := flow.FindPath(flow.Point{Block: f.Blocks[0]}, flow.IsReturn, isUpd, nil)
+			res.Check(!pr.Found, "O11.2", "OnConnectionListUpdate: every table change is published", fnPos(c.Prog, f), "every path calls UpdateState (also for the empty table)", "a change of the session table can go unpublished (path "+flow.BlockPath(pr.Via)+"): when the last session is removed the connection map keeps it, and RPCs are dialled over a dead session")
+		}
 		res.Check(retained == "", "O11.2", "OnConnectionListUpdate: the manager's live table is not retained", fnPos(c.Prog, f), "only ranged over and measured", "the manager's own map is "+retained+": the dialer would observe unpublished states of the table")
 		// what is handed to UpdateState is the fresh map (or nil for the empty table)
 		for _, call := range flow.FindCalls(f, func(cc *ssa.CallCommon) bool { return flow.IsCallTo(cc, grpcutilPkg, "MultiClientConn", "UpdateState") }) {
